@@ -13,7 +13,8 @@ From Coq Require Import ZArith Arith List Bool.
 From QV.Core Require Import OF QcOF Sums Mat Cplx Psd.
 From QV.Model Require Import QObj HermEmbed C18_Lindblad.
 From QV.Proofs Require Import C18_Algebra C18_Misc C18_Action C18_Extract C18_Rebuild C18_Verdict C18_Convert C18_Physical
-  C18_Hermitian C18_JumpHK C18_JumpPSD C18_TaylorHP C18_TaylorTail C18_Bundle C18_Witness.
+  C18_Hermitian C18_JumpHK C18_JumpPSD C18_TaylorHP C18_TaylorTail C18_Bundle C18_Witness C18_ExecEq.
+From QV.Exec Require Import C18_ops.
 Import ListNotations.
 
 (* ================================================================ 1. GKSL action *)
@@ -273,6 +274,21 @@ Theorem C18_taylor_tail_bound : forall (F : OF) (frz : rmat F -> rmat F) (n : na
   kle F (fabs F (csub F (texp frz n L (N + p) i j) (texp frz n L N i j))) (cmul F (tk F x (S N)) (kdiv F c (csub F c x))).
 Proof. exact taylor_tail. Qed.
 Print Assumptions C18_taylor_tail_bound.
+
+(* ================================================================ executed ops = model definitions *)
+(* the wrappers of Exec/C18_ops.v materialise intermediate matrices with [freeze]; on the index range the harness reads they compute the
+   model definitions: change of basis both ways (ops c18.gen / extract / parts / jump / proj_ineq), the generator in the modes hk and k
+   (c18.lcb / c18.gen; modes hjk and h are the model terms themselves), the rebuilt generator of c18.proj_ineq.  (c18.texp: texp_fast_eq
+   in Exec/C18_ops.v.)  Instantiated at the executed field Qc. *)
+Theorem C18_exec_ops_eq : forall (d : nat), (0 < d)%nat -> forall (B : nat -> cmat Qc_OF),
+  (forall (L : cmat Qc_OF) a b, (a < d * d)%nat -> (b < d * d)%nat -> conv_to_B d B L a b = chs_of_cb d B L a b) /\
+  (forall (HS : cmat Qc_OF) s t, (s < d * d)%nat -> (t < d * d)%nat -> conv_to_cb d B HS s t = cb_of_chs d B HS s t) /\
+  (forall H K : cmat Qc_OF, meq (d * d) (d * d) (lcb_hjk d B H (cfrz d d (j_of_k d B K)) K) (lcb_hk d B H K)) /\
+  (forall K : cmat Qc_OF, meq (d * d) (d * d) (madd (j_part d (cfrz d d (j_of_k d B K))) (k_part d B K)) (lcb_k d B K)) /\
+  (forall L K' : cmat Qc_OF, meq (d * d) (d * d)
+     (cfrz (d * d) (d * d) (lcb_hjk d B (cfrz d d (calc_h_mat d B L)) (cfrz d d (calc_j_mat d B L)) K')) (proj_ineq_cb d B L K')).
+Proof. exact exec_ops_eq. Qed.
+Print Assumptions C18_exec_ops_eq.
 
 (* ================================================================ non-vacuity *)
 (* the 2-qubit normalised Pauli basis over Qc (sd = 2) satisfies every basis hypothesis exactly; H = w_H (complex, non-diagonal)
